@@ -177,10 +177,18 @@ type c01Op struct {
 	Since uint64  `json:"since,omitempty"`
 	Limit int     `json:"limit,omitempty"`
 	AO    bool    `json:"active_only,omitempty"`
+	// FD / BF: changesFeed with since token (Trig, Low, Since), request limit Limit, ChannelQueryLimit QLimit
+	Trig   uint64 `json:"trig,omitempty"`
+	Low    uint64 `json:"low,omitempty"`
+	QLimit int    `json:"qlimit,omitempty"`
 }
 
 func (o c01Op) coq() string {
 	switch o.K {
+	case "FD", "BF":
+		return fmt.Sprintf("%s %d %d %d %d %s %d", o.K, o.Trig, o.Low, o.Since, o.Limit, cqBool(o.AO), o.QLimit)
+	case "BG":
+		return fmt.Sprintf("BG %d %d %s", o.Since, o.Limit, cqBool(o.AO))
 	case "W":
 		return "W (" + o.E.coq() + ")"
 	case "A":
@@ -198,6 +206,18 @@ func (o c01Op) coq() string {
 }
 func (o c01Op) String() string {
 	switch o.K {
+	case "FD", "BF":
+		ao := ""
+		if o.AO {
+			ao = ",active"
+		}
+		return fmt.Sprintf("%s(%s,limit=%d%s,q=%d)", o.K, SequenceID{TriggeredBy: o.Trig, LowSeq: o.Low, Seq: o.Since}.String(), o.Limit, ao, o.QLimit)
+	case "BG":
+		ao := ""
+		if o.AO {
+			ao = ",active"
+		}
+		return fmt.Sprintf("BG(%d,%d%s)", o.Since, o.Limit, ao)
 	case "W":
 		return "W" + o.E.String()
 	case "A":
@@ -229,10 +249,12 @@ func c01OpsString(ops []c01Op) string {
 }
 
 type c01Obs struct {
-	VF   uint64
-	Logs []c01E
-	Out  string // Coq term of type out
-	Rows []c01E
+	VF    uint64
+	Logs  []c01E
+	Out   string // Coq term of type xout
+	Rows  []c01E
+	FRows []c01Row // rows of a changesFeed run
+	Err   bool
 }
 
 func (o c01Obs) coq() string {
@@ -250,6 +272,9 @@ type c01Comp struct {
 	vf0    uint64
 	hitBackfill bool
 	hitPrune    bool
+	hitPaging   bool // some changesFeed run needed more than one GetChanges call
+	bypass      *bypassChannelCache
+	col         *DatabaseCollectionWithUser // carries nothing but ChannelQueryLimit: all changesFeed reads of its receiver
 }
 
 var c01Stats *base.CacheStats
@@ -274,8 +299,49 @@ func c01NewComp(t *testing.T, ctx context.Context, vf0 uint64, maxLen, minLen in
 	c.qh = &c01QH{B: &c.B}
 	c.cache = newChannelCacheWithOptions(ctx, c.qh, channels.NewID("C", 0), vf0,
 		ChannelCacheOptions{ChannelCacheMaxLength: maxLen, ChannelCacheMinLength: minLen}, c01CacheStats(t))
+	c.bypass = &bypassChannelCache{channel: channels.NewID("C", 0), queryHandler: c.qh}
+	c.col = &DatabaseCollectionWithUser{DatabaseCollection: &DatabaseCollection{dbCtx: &DatabaseContext{Options: DatabaseContextOptions{CacheOptions: &CacheOptions{}}}}}
 	return c
 }
+
+const c01CompChan = 7 // comp_chan of ChangesFeed.v
+
+// runs the REAL changesFeed goroutine (db/changes.go) over the given SingleChannelCache
+func (c *c01Comp) feed(sc SingleChannelCache, o c01Op) (rows []c01Row, ok bool) {
+	c.col.dbCtx.Options.CacheOptions.ChannelQueryLimit = o.QLimit
+	ctx, cancel := context.WithCancel(c.ctx)
+	defer cancel()
+	q0 := c.qh.queries
+	h0 := c01Stats.ChannelCacheHits.Value() + c01Stats.ChannelCacheMisses.Value()
+	ok = true
+	for e := range c.col.changesFeed(ctx, sc, ChangesOptions{Since: SequenceID{TriggeredBy: o.Trig, LowSeq: o.Low, Seq: o.Since}, Limit: o.Limit, ActiveOnly: o.AO, ChangesCtx: ctx}, "") {
+		if e == nil || e.Err != nil {
+			ok = false
+			continue
+		}
+		r := c01Row{T: e.Seq.TriggeredBy, L: e.Seq.LowSeq, S: e.Seq.Seq, Del: e.Deleted}
+		r.ID, _ = strconv.ParseUint(strings.TrimPrefix(e.ID, "d"), 10, 64)
+		if len(e.Changes) > 0 {
+			r.Rev, _ = strconv.ParseUint(strings.TrimSuffix(e.Changes[0][ChangesVersionTypeRevTreeID], "-r"), 10, 64)
+		}
+		if len(e.Removed) > 0 {
+			r.Rm = []uint64{c01CompChan}
+		}
+		rows = append(rows, r)
+	}
+	calls := c.qh.queries - q0
+	if sc == SingleChannelCache(c.cache) {
+		calls = int(c01Stats.ChannelCacheHits.Value() + c01Stats.ChannelCacheMisses.Value() - h0)
+	}
+	c01FeedRuns++
+	if calls > 1 {
+		c.hitPaging = true
+		c01FeedRunsPaged++
+	}
+	return rows, ok
+}
+
+var c01FeedRuns, c01FeedRunsPaged, c01SysBypass int64
 
 func c01NotDocs(ds []uint64, l []c01E) []c01E {
 	out := l[:0:0]
@@ -347,6 +413,29 @@ func (c *c01Comp) apply(o c01Op) c01Obs {
 		}
 		if c.qh.queries > q0 {
 			c.hitBackfill = true
+		}
+	case "FD", "BF":
+		var sc SingleChannelCache = c.cache
+		if o.K == "BF" {
+			sc = c.bypass
+		}
+		q0 := c.qh.queries
+		fr, ok := c.feed(sc, o)
+		if o.K == "FD" && c.qh.queries > q0 {
+			c.hitBackfill = true
+		}
+		ob := c01Obs{VF: c.cache.validFrom, Logs: c01FromLogs(c.cache.logs), Out: "RFeed " + c01RowsCoq(fr), FRows: fr, Err: !ok}
+		if c.cache.validFrom > c.vf0 {
+			c.hitPrune = true
+		}
+		return ob
+	case "BG":
+		r, err := c.bypass.GetChanges(c.ctx, ChangesOptions{Since: SequenceID{Seq: o.Since}, Limit: o.Limit, ActiveOnly: o.AO, ChangesCtx: c.ctx})
+		if err != nil {
+			out = "RNone"
+		} else {
+			rows = c01FromLogs(r)
+			out = "RRows " + c01EsCoq(rows)
 		}
 	}
 	if c.cache.validFrom > c.vf0 {
@@ -472,6 +561,100 @@ func c01CheckRead(o c01Op, rows []c01E, B, F []c01E, quiescent bool) *c01Fail {
 	return nil
 }
 
+func c01RowEntry(r c01Row) c01E {
+	return c01E{Seq: r.S, Doc: r.ID, Rev: r.Rev, Rm: len(r.Rm) > 0, Del: r.Del}
+}
+
+// what changesFeed emits for a list of log entries (the inner loop of the goroutine)
+func c01Emit(trig uint64, l []c01E) []c01Row {
+	out := []c01Row{}
+	for _, e := range l {
+		if e.Seq >= trig {
+			trig = 0
+		}
+		if trig > 0 && (e.Del || e.Rm) {
+			continue
+		}
+		r := c01Row{T: trig, S: e.Seq, ID: e.Doc, Rev: e.Rev, Del: e.Del}
+		if e.Rm {
+			r.Rm = []uint64{c01CompChan}
+		}
+		out = append(out, r)
+	}
+	return out
+}
+
+// Go-side reflections of paginate_eq / paginate_eq_active_only / paginate_prefix / bypass_* (ChangesFeedProofs.v).
+// B, F: ground truth at the time of the run; quiescent: nothing undelivered (always taken as true for
+// the bypass cache, which reads the bucket).
+func c01CheckFeed(o c01Op, ob c01Obs, B, F []c01E, quiescent bool) *c01Fail {
+	if ob.Err {
+		return &c01Fail{"changes_feed.error_entry", "the feed sent an error entry"}
+	}
+	rows := ob.FRows
+	safe := SequenceID{TriggeredBy: o.Trig, LowSeq: o.Low, Seq: o.Since}.SafeSequence()
+	for i, r := range rows {
+		if i > 0 && rows[i-1].S >= r.S {
+			return &c01Fail{"changes_feed_sound.ascending", "rows " + c01RowsString(rows)}
+		}
+		if r.S <= safe {
+			return &c01Fail{"changes_feed_sound.after_since", fmt.Sprintf("row %s not after %d", r, safe)}
+		}
+		if !c01In(c01RowEntry(r), B) {
+			return &c01Fail{"changes_feed_sound.real_entry", fmt.Sprintf("row %s is not a write of the channel", r)}
+		}
+		wantT := uint64(0)
+		if r.S < o.Trig {
+			wantT = o.Trig
+		}
+		if r.T != wantT || r.L != 0 {
+			return &c01Fail{"changes_feed_sound.token", fmt.Sprintf("row %s: token should be (%d,0,%d)", r, wantT, r.S)}
+		}
+		if r.T > 0 && (r.Del || len(r.Rm) > 0) {
+			return &c01Fail{"changes_feed_sound.backfill_filter", fmt.Sprintf("row %s is a deletion / removal inside a back-fill", r)}
+		}
+	}
+	if o.K == "BF" {
+		quiescent = true
+	}
+	if !quiescent {
+		return nil
+	}
+	truth := c01Truth(B, safe)
+	switch {
+	case !o.AO && o.Trig == 0:
+		if want := c01Emit(0, c01Take(o.Limit, truth)); !c01RowsEq(rows, want) {
+			return &c01Fail{"paginate_eq", fmt.Sprintf("feed rows %s, one unlimited read cut at the limit %s", c01RowsString(rows), c01RowsString(want))}
+		}
+	case !o.AO:
+		full := c01Emit(o.Trig, truth)
+		ok := len(rows) <= len(full) && c01RowsEq(rows, full[:len(rows)]) && (len(rows) == len(full) || (o.Limit > 0 && len(rows) >= o.Limit))
+		if !ok {
+			return &c01Fail{"paginate_prefix", fmt.Sprintf("feed rows %s, emission of the whole answer %s, limit %d", c01RowsString(rows), c01RowsString(full), o.Limit)}
+		}
+	case o.Trig == 0:
+		var got []c01E
+		for _, r := range rows {
+			got = append(got, c01RowEntry(r))
+		}
+		if g, w := c01Active(got), c01Active(truth); !c01EsEq(g, w) {
+			return &c01Fail{"paginate_eq.active_only", fmt.Sprintf("active feed rows %s, active truth %s", c01EsString(g), c01EsString(w))}
+		}
+	}
+	return nil
+}
+
+func c01CheckBypassGet(o c01Op, rows []c01E, B []c01E) *c01Fail {
+	truth := c01Truth(B, o.Since)
+	if o.AO {
+		truth = c01Active(truth)
+	}
+	if want := c01Take(o.Limit, truth); !c01EsEq(rows, want) {
+		return &c01Fail{"bypass_reads_bucket", fmt.Sprintf("bypass rows %s, want %s", c01EsString(rows), c01EsString(want))}
+	}
+	return nil
+}
+
 type c01Trace struct {
 	VF0    uint64  `json:"valid_from"`
 	MaxLen int     `json:"max_len"`
@@ -485,6 +668,8 @@ func c01RunTrace(t *testing.T, rec *vRecorder, ctx context.Context, stream strin
 	c := c01NewComp(t, ctx, tr.VF0, tr.MaxLen, tr.MinLen)
 	steps := make([]string, 0, len(tr.Ops))
 	failed := false
+	var prevOp c01Op
+	var prevOb c01Obs
 	for i, o := range tr.Ops {
 		Bpre, Fpre := c.B, c.F
 		q := c.quiescent()
@@ -492,12 +677,31 @@ func c01RunTrace(t *testing.T, rec *vRecorder, ctx context.Context, stream strin
 		if emit {
 			steps = append(steps, "("+o.coq()+", "+ob.coq()+")")
 		}
+		pOp, pOb := prevOp, prevOb
+		prevOp, prevOb = o, ob
 		if !wf || failed {
 			continue
 		}
 		var f *c01Fail
 		if o.K == "GC" && strings.HasPrefix(ob.Out, "RRows") {
 			f = c01CheckRead(o, ob.Rows, Bpre, Fpre, q)
+			// bypass_equals_cached: the same read answered just before by the bypass cache
+			if f == nil && q && pOp.K == "BG" && pOp.Since == o.Since && pOp.Limit == o.Limit && pOp.AO == o.AO && strings.HasPrefix(pOb.Out, "RRows") {
+				if !o.AO && !c01EsEq(pOb.Rows, ob.Rows) {
+					f = &c01Fail{"bypass_equals_cached", fmt.Sprintf("bypass cache answered %s, channel cache %s", c01EsString(pOb.Rows), c01EsString(ob.Rows))}
+				} else if o.AO && o.Limit == 0 && !c01EsEq(pOb.Rows, c01Active(ob.Rows)) {
+					f = &c01Fail{"bypass_equals_cached.active_only", fmt.Sprintf("bypass cache answered %s, active rows of the channel cache %s", c01EsString(pOb.Rows), c01EsString(c01Active(ob.Rows)))}
+				}
+			}
+		}
+		if o.K == "FD" || o.K == "BF" {
+			f = c01CheckFeed(o, ob, Bpre, Fpre, q)
+			if f == nil && o.K == "FD" && q && pOp.K == "BF" && pOp.Trig == o.Trig && pOp.Low == o.Low && pOp.Since == o.Since && pOp.Limit == o.Limit && pOp.AO == o.AO && !o.AO && !c01RowsEq(pOb.FRows, ob.FRows) {
+				f = &c01Fail{"bypass_feed_equals_cached_feed", fmt.Sprintf("feed over the bypass cache %s, over the channel cache %s", c01RowsString(pOb.FRows), c01RowsString(ob.FRows))}
+			}
+		}
+		if o.K == "BG" && strings.HasPrefix(ob.Out, "RRows") {
+			f = c01CheckBypassGet(o, ob.Rows, Bpre)
 		}
 		if f == nil {
 			f = c.checkInv()
@@ -509,7 +713,7 @@ func c01RunTrace(t *testing.T, rec *vRecorder, ctx context.Context, stream strin
 		}
 	}
 	tr.Text = c01OpsString(tr.Ops)
-	nontrivial := c.hitBackfill || c.hitPrune
+	nontrivial := c.hitBackfill || c.hitPrune || c.hitPaging
 	if emit {
 		rec.Case(stream, "cache-trace", fmt.Sprintf("CComp %d %d %d %s", tr.VF0, tr.MaxLen, tr.MinLen, cqList(steps)), tr, nontrivial)
 	} else {
@@ -647,6 +851,77 @@ func c01Exhaustive(t *testing.T, rec *vRecorder, ctx context.Context, pre, maxLe
 	walk(nil)
 }
 
+// the read part of a feed trace: the request answered by the bypass cache, immediately followed by
+// the same request answered through the channel cache (possibly with another ChannelQueryLimit)
+func c01FeedPair(t, l, since uint64, limit int, ao bool, q1, q2 int) []c01Op {
+	return []c01Op{{K: "BF", Trig: t, Low: l, Since: since, Limit: limit, AO: ao, QLimit: q1},
+		{K: "FD", Trig: t, Low: l, Since: since, Limit: limit, AO: ao, QLimit: q2}}
+}
+func c01GetPair(since uint64, limit int, ao bool) []c01Op {
+	return []c01Op{{K: "BG", Since: since, Limit: limit, AO: ao}, {K: "GC", Since: since, Limit: limit, AO: ao}}
+}
+func c01FeedVariants(g *c01Gen) [][]c01Op {
+	mid := g.next / 2
+	return [][]c01Op{
+		c01FeedPair(0, 0, 0, 0, false, 1, 1),
+		c01FeedPair(0, 0, 0, 0, false, 2, 2),
+		c01FeedPair(0, 0, 0, 3, false, 2, 2),
+		c01FeedPair(0, 0, 0, 2, false, 3, 1),
+		c01FeedPair(0, 0, mid, 0, false, 1, 2),
+		c01FeedPair(0, 0, 0, 0, true, 1, 1),
+		c01FeedPair(0, 0, 0, 0, true, 2, 2),
+		c01FeedPair(0, 0, 0, 1, true, 2, 3),
+		c01FeedPair(0, 0, mid, 2, true, 1, 1),
+		c01FeedPair(g.next, 0, 0, 0, false, 2, 2), // every row below the trigger: stamped, deletions / removals suppressed
+		c01FeedPair(mid+1, 0, 0, 2, false, 1, 1),
+		c01FeedPair(0, 1, mid+1, 0, false, 2, 2), // low::seq, read from the low sequence
+		c01GetPair(0, 0, false),
+		c01GetPair(0, 2, false),
+		c01GetPair(mid, 1, true),
+		c01GetPair(0, 0, true),
+	}
+}
+
+// every sequence of [depth] state-changing symbols, then every feed variant (each on a fresh cache), then a full read
+func c01ExhaustiveFeeds(t *testing.T, rec *vRecorder, ctx context.Context, pre, maxLen, minLen, depth int, sampleMod uint64, counter *int) {
+	base0 := []string{"wa1", "wa2", "wa3", "wr1", "wd2", "wo1", "wo2", "pa", "pu1", "gc00", "gcm1"}
+	var walk func(path []string)
+	walk = func(path []string) {
+		build := func() (*c01Gen, []c01Op, uint64) {
+			g := &c01Gen{}
+			var F []c01E
+			ops := c01Prehistory(g, pre)
+			vf0 := g.next + 1
+			for _, s := range path {
+				ops = append(ops, c01Expand(g, s, &F)...)
+			}
+			return g, ops, vf0
+		}
+		g, _, _ := build()
+		if len(path) == depth {
+			for vi := range c01FeedVariants(g) {
+				g2, ops, vf0 := build()
+				ops = append(ops, c01FeedVariants(g2)[vi]...)
+				ops = append(ops, c01Op{K: "GC", Since: 0, Limit: 0})
+				tr := &c01Trace{VF0: vf0, MaxLen: maxLen, MinLen: minLen, Ops: ops}
+				key := fmt.Sprintf("feed/%d/%d/%d/%s/%d/%d", pre, maxLen, minLen, strings.Join(path, ","), vi, vSeed())
+				emit := sampleMod <= 1 || c01Hash(key)%sampleMod == 0
+				c01RunTrace(t, rec, ctx, "exhaustive-feed", tr, true, emit)
+				*counter++
+			}
+			return
+		}
+		alpha := base0
+		if len(g.pending) > 0 {
+			alpha = append(append([]string{}, base0...), "dl")
+		}
+		for _, s := range alpha {
+			walk(append(append([]string{}, path...), s))
+		}
+	}
+	walk(nil)
+}
+
 func c01RandomTrace(r *vRand, length int) *c01Trace {
 	maxLen := []int{1, 2, 3, 5}[r.Intn(4)]
 	minLen := 1 + r.Intn(maxLen)
@@ -689,12 +964,14 @@ func c01RandomTrace(r *vRand, length int) *c01Trace {
 				b.Rm = false
 				ops = append(ops, c01Op{K: "A", E: &b, R: e.Rm})
 			}
-		case p < 84:
+		case p < 76:
 			since := uint64(0)
 			if r.Chance(70) {
 				since = uint64(r.Intn(int(g.next + 2)))
 			}
 			ops = append(ops, c01Op{K: "GC", Since: since, Limit: []int{0, 0, 1, 2, 3}[r.Intn(5)], AO: r.Chance(20)})
+		case p < 84:
+			ops = append(ops, c01RandomFeedOps(r, g)...)
 		case p < 88:
 			ops = append(ops, c01Op{K: "GCa", Since: uint64(r.Intn(int(g.next + 2))), Limit: r.Intn(3)})
 		case p < 94:
@@ -724,8 +1001,38 @@ func c01RandomTrace(r *vRand, length int) *c01Trace {
 		ops = append(ops, c01Op{K: "A", E: &b, R: e.Rm})
 	}
 	g.pending = nil
-	ops = append(ops, c01Op{K: "GC", Since: uint64(r.Intn(int(g.next + 1))), Limit: r.Intn(3)}, c01Op{K: "GC", Since: 0, Limit: 0})
+	ops = append(ops, c01Op{K: "GC", Since: uint64(r.Intn(int(g.next + 1))), Limit: r.Intn(3)})
+	// quiescent: the bypass cache, the channel cache and the feeds over them must agree
+	ops = append(ops, c01RandomFeedOps(r, g)...)
+	ops = append(ops, c01RandomFeedOps(r, g)...)
+	ops = append(ops, c01Op{K: "GC", Since: 0, Limit: 0})
 	return &c01Trace{VF0: vf0, MaxLen: maxLen, MinLen: minLen, Ops: ops}
+}
+
+func c01RandomFeedOps(r *vRand, g *c01Gen) []c01Op {
+	since := uint64(0)
+	if r.Chance(60) {
+		since = uint64(r.Intn(int(g.next + 2)))
+	}
+	limit := []int{0, 0, 1, 2, 3, 5}[r.Intn(6)]
+	ao := r.Chance(25)
+	q1, q2 := 1+r.Intn(4), 1+r.Intn(4)
+	switch p := r.Intn(100); {
+	case p < 30:
+		return c01GetPair(since, limit, ao)
+	case p < 75:
+		return c01FeedPair(0, 0, since, limit, ao, q1, q2)
+	case p < 90: // TriggeredBy: rows below it are stamped and filtered
+		t := 1 + uint64(r.Intn(int(g.next+2)))
+		s := uint64(0)
+		if t > 1 && r.Chance(50) {
+			s = uint64(r.Intn(int(t)))
+		}
+		return c01FeedPair(t, 0, s, limit, ao, q1, q2)
+	default: // low::seq
+		hi := 1 + uint64(r.Intn(int(g.next+1)))
+		return c01FeedPair(0, uint64(r.Intn(int(hi+1))), hi, limit, ao, q1, q2)
+	}
 }
 
 // adversarial: entries that are not writes of the channel, duplicate sequences, raw prepends with
@@ -806,6 +1113,16 @@ func c01Corpus() []*c01Trace {
 			[]c01Op{{K: "A", E: e(2, 2)}, {K: "A", E: e(3, 1)}, {K: "A", E: e(1, 1)}}, gc(0, 0))},
 		// back-fill into a cache with room, then with a limit that cuts the query
 		{VF0: 4, MaxLen: 5, MinLen: 1, Ops: cat([]c01Op{{K: "W", E: e(1, 1)}, {K: "W", E: e(2, 2)}, {K: "W", E: e(3, 3)}}, wa(4, 4), gc(0, 2), gc(2, 0), gc(0, 0))},
+		// changesFeed pagination: five entries older than the cache, query limit 2: three queries, the overlap element once
+		{VF0: 6, MaxLen: 2, MinLen: 1, Ops: cat([]c01Op{{K: "W", E: e(1, 1)}, {K: "W", E: e(2, 2)}, {K: "W", E: e(3, 3)}, {K: "W", E: e(4, 4)}, {K: "W", E: e(5, 5)}},
+			wa(6, 6), wa(7, 7), c01FeedPair(0, 0, 0, 0, false, 2, 2), c01FeedPair(0, 0, 0, 4, false, 3, 2), c01FeedPair(0, 0, 1, 0, true, 2, 1), gc(0, 0))},
+		// the same through a cache of length 5 that the first pages fill (prepend between two pages of one feed)
+		{VF0: 6, MaxLen: 5, MinLen: 1, Ops: cat([]c01Op{{K: "W", E: e(1, 1)}, {K: "W", E: e(2, 2)}, {K: "W", E: e(3, 3)}, {K: "W", E: e(4, 4)}, {K: "W", E: e(5, 5)}},
+			wa(6, 6), c01FeedPair(0, 0, 0, 0, false, 1, 2), c01GetPair(0, 0, false), c01GetPair(2, 2, false), gc(0, 0))},
+		// back-fill token: rows below the trigger are stamped, the removal and the tombstone among them are not sent
+		{VF0: 1, MaxLen: 5, MinLen: 1, Ops: cat(wa(1, 1), wa(2, 2), []c01Op{{K: "W", E: &c01E{Seq: 3, Doc: 1, Rev: 3, Rm: true}}, {K: "A", E: e(3, 1), R: true},
+			{K: "W", E: &c01E{Seq: 4, Doc: 3, Rev: 4, Del: true}}, {K: "A", E: &c01E{Seq: 4, Doc: 3, Rev: 4, Del: true}}}, wa(5, 4), wa(6, 5),
+			c01FeedPair(6, 0, 0, 0, false, 2, 2), c01FeedPair(6, 0, 0, 2, false, 1, 1), c01FeedPair(6, 0, 2, 0, false, 2, 3), gc(0, 0))},
 	}
 }
 
@@ -835,6 +1152,23 @@ func c01Component(t *testing.T, rec *vRecorder, ctx context.Context) {
 	}
 	rec.Extra("exhaustive_cache_traces", nEx)
 	rec.Extra("exhaustive_sample_modulus", mod)
+	// bounded-exhaustive for the feed loop and the bypass cache
+	nFeed := 0
+	fcfgs := []cfg{{2, 1, 1, 3}, {2, 2, 1, 3}, {0, 3, 1, 3}}
+	if vThorough() {
+		fcfgs = append(fcfgs, cfg{0, 1, 1, 3}, cfg{3, 2, 2, 3}, cfg{2, 5, 1, 3})
+	}
+	ftotal := len(fcfgs) * 12 * 12 * 12 * 16
+	fmod := uint64(ftotal/vBudget(500, 6000) + 1)
+	for _, c := range fcfgs {
+		c01ExhaustiveFeeds(t, rec, ctx, c.pre, c.maxLen, c.minLen, c.depth, fmod, &nFeed)
+	}
+	rec.Extra("exhaustive_feed_traces", nFeed)
+	defer func() {
+		rec.Extra("changes_feed_runs", c01FeedRuns)
+		rec.Extra("changes_feed_runs_with_more_than_one_page", c01FeedRunsPaged)
+	}()
+	rec.Extra("exhaustive_feed_sample_modulus", fmod)
 	r := vNewRand(vSeed()*1000003 + 11)
 	for i, n := 0, vBudget(250, 3000); i < n; i++ {
 		c01RunTrace(t, rec, ctx, "random", c01RandomTrace(r, 30), true, true)
@@ -994,7 +1328,11 @@ func (q c01Req) String() string {
 	if q.AO {
 		ao = ",active_only"
 	}
-	return fmt.Sprintf("%s%v since=%s limit=%d%s", u, q.Chans, q.Since.String(), q.Limit, ao)
+	since := q.Since.String()
+	if !c01Canonical(q.Since) { // a token no server prints: show the triple, its text may coincide with another token's
+		since = fmt.Sprintf("(trig %d, low %d, seq %d)", q.Since.TriggeredBy, q.Since.LowSeq, q.Since.Seq)
+	}
+	return fmt.Sprintf("%s%v since=%s limit=%d%s", u, q.Chans, since, q.Limit, ao)
 }
 
 type c01Sys struct {
@@ -1011,19 +1349,38 @@ type c01Sys struct {
 	cfg    string
 	nconf  int
 	failed map[string]bool
+	lowseq bool     // every gap in the sequence order is skipped at once (CachePendingSeqMaxNum 0) and the writer leaves gaps
+	api    bool     // principals created through the admin API (they own sequences)
+	gaps   []uint64 // sequences reserved and never used
+	nbump  int
 }
 
 func c01NewSys(t *testing.T, rec *vRecorder, cfg string, principalAPI bool) *c01Sys {
 	co := DefaultCacheOptions()
-	if cfg == "maxlen1" {
-		co.ChannelCacheOptions.ChannelCacheMaxLength = 1
-		co.ChannelCacheOptions.ChannelCacheMinLength = 1
+	lowseq := false
+	for _, opt := range strings.Split(cfg, "+") {
+		switch opt {
+		case "maxlen1":
+			co.ChannelCacheOptions.ChannelCacheMaxLength = 1
+			co.ChannelCacheOptions.ChannelCacheMinLength = 1
+		case "qlimit2": // changesFeed paginates: every channel read is cut into pages of two entries
+			co.ChannelCacheOptions.ChannelQueryLimit = 2
+		case "qlimit3":
+			co.ChannelCacheOptions.ChannelQueryLimit = 3
+		case "bypass0": // no channel cache may exist: every feed reads through a bypassChannelCache
+			co.ChannelCacheOptions.MaxNumChannels = 0
+		case "bypass1": // the first channel requested gets the only cache, all others are bypassed
+			co.ChannelCacheOptions.MaxNumChannels = 1
+		case "lowseq":
+			co.CachePendingSeqMaxNum = 0
+			lowseq = true
+		}
 	}
 	db, ctx := SetupTestDBWithOptions(t, DatabaseContextOptions{AllowConflicts: base.Ptr(true), CacheOptions: &co,
 		Scopes: GetScopesOptionsDefaultCollectionOnly(t)})
 	col, ctx := GetSingleDatabaseCollectionWithUser(ctx, t, db)
 	col.ChannelMapper = channels.NewChannelMapper(ctx, channels.DocChannelsSyncFunction, db.Options.JavascriptTimeout)
-	s := &c01Sys{t: t, rec: rec, db: db, ctx: ctx, col: col, docs: map[uint64]*c01Doc{}, revs: map[string]uint64{}, cfg: cfg, failed: map[string]bool{}}
+	s := &c01Sys{t: t, rec: rec, db: db, ctx: ctx, col: col, docs: map[uint64]*c01Doc{}, revs: map[string]uint64{}, cfg: cfg, failed: map[string]bool{}, lowseq: lowseq, api: principalAPI}
 	a := db.Authenticator(ctx)
 	for i, chs := range [][]string{{"A"}, {"A", "B"}, {"*"}} {
 		name := fmt.Sprintf("u%d", i+1)
@@ -1110,6 +1467,9 @@ func (s *c01Sys) write(r *vRand, docN uint64) {
 	op := ""
 	var doc *Document
 	var err error
+	if !(w != nil && !w.deleted && len(d.leaves) >= 3) && s.lowseq && len(s.gaps) < 3 && r.Chance(30) {
+		s.gap()
+	}
 	switch {
 	case w == nil || w.deleted:
 		// create / resurrect
@@ -1189,6 +1549,77 @@ func (s *c01Sys) write(r *vRand, docN uint64) {
 		s.maxSeq = doc.Sequence
 	}
 	s.rec.Err("write-" + op)
+}
+
+// reserves a sequence that no write will ever use: the next write leaves a gap, which the change cache
+// (CachePendingSeqMaxNum 0) declares skipped as soon as that write arrives
+func (s *c01Sys) gap() uint64 {
+	n, err := s.db.sequences.nextSequence(s.ctx)
+	if err != nil {
+		s.t.Fatalf("nextSequence: %v", err)
+	}
+	s.gaps = append(s.gaps, n)
+	s.rec.Err("gap")
+	return n
+}
+
+// the server's low sequence as SimpleMultiChangesFeed computes it
+func (s *c01Sys) low() uint64 {
+	if o := s.db.changeCache.getOldestSkippedSequence(s.ctx); o > 0 {
+		return o - 1
+	}
+	return 0
+}
+
+// gives a user's principal document a new sequence without touching the channel grants (e-mail change)
+func (s *c01Sys) bumpUser(i int) {
+	s.nbump++
+	u := s.users[i]
+	email := fmt.Sprintf("%s_%d@example.com", u.name, s.nbump)
+	if _, _, err := s.db.UpdatePrincipal(s.ctx, &auth.PrincipalConfig{Name: &u.name, Email: &email}, true, true); err != nil {
+		s.t.Fatalf("UpdatePrincipal(email): %v", err)
+	}
+	u2, err := s.db.Authenticator(s.ctx).GetUser(u.name)
+	if err != nil || u2 == nil {
+		s.t.Fatalf("GetUser: %v", err)
+	}
+	u.seq = u2.Sequence()
+	if u.seq > s.maxSeq {
+		s.maxSeq = u.seq
+	}
+	s.rec.Err("user-bump")
+}
+
+// deterministic write for the witness scenarios: create or update the document with the given channels
+func (s *c01Sys) put(docN uint64, chs []uint64) {
+	docid := fmt.Sprintf("doc%d", docN)
+	d := s.docs[docN]
+	if d == nil {
+		d = &c01Doc{}
+		s.docs[docN] = d
+	}
+	s.nconf++
+	b := Body{"channels": c01ChanStrings(chs), "n": s.nconf}
+	w := d.winner()
+	if w != nil {
+		b[BodyRev] = w.rev
+	}
+	rev, doc, err := s.col.Put(s.ctx, docid, b)
+	if err != nil {
+		s.t.Fatalf("put %s: %v", docid, err)
+	}
+	g, dg := c01SplitRev(rev)
+	nl := &c01Leaf{rev: rev, gen: g, dig: dg, chans: chs, hist: []string{rev}}
+	if w != nil {
+		nl.hist = append([]string{rev}, w.hist...)
+		s.replaceLeaf(d, w, nl)
+	} else {
+		d.leaves = append(d.leaves, nl)
+	}
+	s.hist = append(s.hist, c01Hop{Doc: docN, Seq: doc.Sequence, Rev: s.revID(rev), Chans: chs, Op: "put"})
+	if doc.Sequence > s.maxSeq {
+		s.maxSeq = doc.Sequence
+	}
 }
 
 func (s *c01Sys) replaceLeaf(d *c01Doc, old, nl *c01Leaf) {
@@ -1341,9 +1772,25 @@ func (s *c01Sys) visible(q c01Req) []uint64 {
 	return out
 }
 
-func (s *c01Sys) monitors(q c01Req, rows []c01Row) {
-	input := map[string]any{"history": s.histDesc(), "request": q.String(), "cache": s.cfg}
-	safe := q.Since.SafeSequence()
+// the position the per-channel feeds read from (norm_since / chan_since of VisibleTok.v)
+func c01ChanSince(since SequenceID, low uint64) uint64 {
+	if since.LowSeq != 0 && since.LowSeq == low {
+		since.LowSeq = 0
+	}
+	if since.TriggeredBy != 0 {
+		return SequenceID{LowSeq: since.LowSeq, Seq: since.TriggeredBy - 1}.SafeSequence()
+	}
+	return since.SafeSequence()
+}
+
+func c01Canonical(s SequenceID) bool {
+	p, err := ParsePlainSequenceID(s.String())
+	return err == nil && p == s
+}
+
+func (s *c01Sys) monitors(q c01Req, rows []c01Row, low uint64) {
+	input := map[string]any{"history": s.histDesc(), "request": q.String(), "cache": s.cfg, "low_sequence": low}
+	safe := c01ChanSince(q.Since, low)
 	for i, r := range rows {
 		if i > 0 {
 			a := SequenceID{TriggeredBy: rows[i-1].T, LowSeq: rows[i-1].L, Seq: rows[i-1].S}
@@ -1353,8 +1800,11 @@ func (s *c01Sys) monitors(q c01Req, rows []c01Row) {
 				return
 			}
 		}
-		if r.S <= safe && r.T == 0 {
-			s.fail("changes.after_since", "rows", input, fmt.Sprintf("row %s not after since %s", r, q.Since.String()))
+		if r.S <= safe || r.T != 0 || r.L != low {
+			if r.ID > 100 && !c01Canonical(q.Since) {
+				continue // the user pseudo-feed of a token the server never printed is tested with Before, not with the channel position
+			}
+			s.fail("changes.after_since", "rows", input, fmt.Sprintf("row %s not after since %s (position %d) or not stamped with the low sequence %d", r, q.Since.String(), safe, low))
 			return
 		}
 	}
@@ -1423,7 +1873,7 @@ func (s *c01Sys) monitors(q c01Req, rows []c01Row) {
 	}
 }
 
-func (s *c01Sys) reqCoq(q c01Req) string {
+func (s *c01Sys) reqCoq(q c01Req, low uint64) string {
 	user := "None"
 	var udoc, useq uint64
 	if q.User >= 0 {
@@ -1435,11 +1885,17 @@ func (s *c01Sys) reqCoq(q c01Req) string {
 	for _, c := range q.Chans {
 		chs = append(chs, c01ChanID(c))
 	}
+	if low != 0 {
+		return fmt.Sprintf("QL %s %d %d %s %d %d %d %d %s %d %d", user, udoc, useq, cqNList(chs), q.Since.TriggeredBy, q.Since.LowSeq, q.Since.Seq, q.Limit, cqBool(q.AO), s.maxSeq, low)
+	}
 	return fmt.Sprintf("Q %s %d %d %s %d %d %d %d %s %d", user, udoc, useq, cqNList(chs), q.Since.TriggeredBy, q.Since.LowSeq, q.Since.Seq, q.Limit, cqBool(q.AO), s.maxSeq)
 }
 
 // per-channel feeds of an admin request, taken from the real changesFeed goroutines
-func (s *c01Sys) adminFeeds(q c01Req) (feeds [][]c01Row, hi uint64, ok bool) {
+func (s *c01Sys) adminFeeds(q c01Req, low uint64) (feeds [][]c01Row, hi uint64, ok bool) {
+	if q.Since.LowSeq != 0 && q.Since.LowSeq == low { // as SimpleMultiChangesFeed does before building the feeds
+		q.Since.LowSeq = 0
+	}
 	col := s.collectionFor(-1)
 	ctx, cancel := context.WithCancel(s.ctx)
 	defer cancel()
@@ -1472,6 +1928,10 @@ type c01SysDesc struct {
 
 func (s *c01Sys) checkpoint(r *vRand, phase string, reqs []c01Req, memo map[string][]c01Row) {
 	s.db.WaitForPendingChanges(s.t)
+	low := s.low()
+	if low != 0 {
+		s.rec.Err("checkpoint-with-low-sequence")
+	}
 	var pairs []string
 	var descs []string
 	histCoq := make([]string, len(s.hist))
@@ -1492,8 +1952,15 @@ func (s *c01Sys) checkpoint(r *vRand, phase string, reqs []c01Req, memo map[stri
 			s.fail("changes.error_entry", "feed", map[string]any{"history": s.histDesc(), "request": q.String()}, "the feed returned an error entry")
 			continue
 		}
+		if s.low() != low {
+			s.t.Fatalf("c01: the low sequence changed during a checkpoint (%d -> %d)", low, s.low())
+		}
 		s.rec.Err("request")
-		s.monitors(q, rows)
+		s.rec.Err("request-since-" + c01SinceKind(q.Since, low))
+		if ql := s.db.Options.CacheOptions.ChannelQueryLimit; ql < 10 && len(rows) > ql {
+			s.rec.Err("request-answer-longer-than-query-limit") // some channel feed needed several pages
+		}
+		s.monitors(q, rows, low)
 		if memo != nil {
 			if prev, ok := memo[q.String()]; ok {
 				if !c01RowsEq(prev, rows) {
@@ -1504,17 +1971,20 @@ func (s *c01Sys) checkpoint(r *vRand, phase string, reqs []c01Req, memo map[stri
 				memo[q.String()] = rows
 			}
 		}
-		pairs = append(pairs, fmt.Sprintf("(%s, %s)", s.reqCoq(q), c01RowsCoq(rows)))
+		pairs = append(pairs, fmt.Sprintf("(%s, %s)", s.reqCoq(q, low), c01RowsCoq(rows)))
 		descs = append(descs, q.String()+" -> "+c01RowsString(rows))
 		if len(pairs) >= 40 {
 			flush()
 		}
-		// paging by last_seq must concatenate to the unpaged answer
-		if q.Limit > 0 && !q.AO && r.Chance(50) {
+		// paging by last_seq must concatenate to the unpaged answer: the next page is requested from the
+		// token of the last row as the server prints it (String) and parses it back (ParsePlainSequenceID).
+		// Theorem C01_resume_paging: any since token the server could have printed (canonical), unchanged low sequence.
+		if q.Limit > 0 && !q.AO && c01Canonical(q.Since) && r.Chance(50) {
 			full, ok1 := s.run(c01Req{User: q.User, Chans: q.Chans, Since: q.Since, Limit: 0})
 			var cat []c01Row
 			since := q.Since
 			okp := ok1
+			compound := false
 			for n := 0; n < 40; n++ {
 				page, okk := s.run(c01Req{User: q.User, Chans: q.Chans, Since: since, Limit: q.Limit})
 				if !okk {
@@ -1526,29 +1996,63 @@ func (s *c01Sys) checkpoint(r *vRand, phase string, reqs []c01Req, memo map[stri
 				}
 				cat = append(cat, page...)
 				last := page[len(page)-1]
-				since = SequenceID{TriggeredBy: last.T, LowSeq: last.L, Seq: last.S}
+				printed := SequenceID{TriggeredBy: last.T, LowSeq: last.L, Seq: last.S}.String()
+				parsed, err := ParsePlainSequenceID(printed)
+				if err != nil {
+					s.fail("changes.resume_paging", "token", map[string]any{"history": s.histDesc(), "request": q.String(), "cache": s.cfg}, fmt.Sprintf("handed-out token %q does not parse: %v", printed, err))
+					okp = false
+					break
+				}
+				if parsed.LowSeq != 0 || parsed.TriggeredBy != 0 {
+					compound = true
+				}
+				since = parsed
 			}
 			s.rec.Count("system", "paged-request", "", true)
+			if compound {
+				s.rec.Err("paged-request-resumed-from-compound-token")
+			}
+			if q.Since.TriggeredBy != 0 || q.Since.LowSeq != 0 {
+				s.rec.Err("paged-request-started-from-compound-token")
+			}
 			if okp && !c01RowsEq(cat, full) {
-				s.fail("changes.resume_paging", "pages", map[string]any{"history": s.histDesc(), "request": q.String(), "cache": s.cfg},
+				s.fail("changes.resume_paging", "pages", map[string]any{"history": s.histDesc(), "request": q.String(), "cache": s.cfg, "low_sequence": low},
 					fmt.Sprintf("pages concatenate to %s, unpaged answer %s", c01RowsString(cat), c01RowsString(full)))
 			}
 		}
-		// merge-loop correspondence on the real per-channel feeds (admin requests: no back-fill rewriting of since)
-		if q.User < 0 && r.Chance(60) {
-			if feeds, hi, ok := s.adminFeeds(q); ok {
+		// merge-loop correspondence on the real per-channel feeds (admin requests without TriggeredBy: the feeds read from the request's own token)
+		if q.User < 0 && q.Since.TriggeredBy == 0 && r.Chance(60) {
+			if feeds, hi, ok := s.adminFeeds(q, low); ok {
 				fs := make([]string, len(feeds))
 				fd := make([]string, len(feeds))
 				for i, f := range feeds {
 					fs[i] = c01RowsCoq(f)
 					fd[i] = c01RowsString(f)
 				}
-				s.rec.Case("system", "merge-loop", fmt.Sprintf("CMerge %s %s %d %d 0 %s", cqList(fs), cqBool(q.AO), hi, q.Limit, c01RowsCoq(rows)),
-					map[string]any{"request": q.String(), "feeds": fd, "out": c01RowsString(rows)}, len(feeds) > 1)
+				s.rec.Case("system", "merge-loop", fmt.Sprintf("CMerge %s %s %d %d %d %s", cqList(fs), cqBool(q.AO), hi, q.Limit, low, c01RowsCoq(rows)),
+					map[string]any{"request": q.String(), "feeds": fd, "out": c01RowsString(rows), "low_sequence": low}, len(feeds) > 1)
 			}
 		}
 	}
 	flush()
+}
+
+func c01SinceKind(s SequenceID, low uint64) string {
+	k := "simple"
+	switch {
+	case s.TriggeredBy != 0 && s.LowSeq != 0:
+		k = "low-triggered"
+	case s.TriggeredBy != 0:
+		k = "triggered"
+	case s.LowSeq != 0 && s.LowSeq == low:
+		k = "low-current"
+	case s.LowSeq != 0:
+		k = "low"
+	}
+	if !c01Canonical(s) {
+		k += "-noncanonical"
+	}
+	return k
 }
 
 func (s *c01Sys) requests(r *vRand) []c01Req {
@@ -1570,6 +2074,23 @@ func (s *c01Sys) requests(r *vRand) []c01Req {
 	if s.maxSeq > 2 {
 		hi := 2 + uint64(r.Intn(int(s.maxSeq-1)))
 		sinces = append(sinces, SequenceID{LowSeq: 1 + uint64(r.Intn(int(hi-1))), Seq: hi})
+		// two more tokens per checkpoint out of: TriggeredBy tokens as a server prints them during a back-fill
+		// (t:s and l:t:s with s < t, l < t), a low::seq token carrying the server's current low sequence,
+		// and a token no server prints (l::s with l >= s).  Tokens t:s with t <= s (never printed either) are
+		// outside the model: a channel granted exactly at t is then read from s, as a back-fill in progress.
+		m := s.maxSeq
+		pool := []SequenceID{
+			{TriggeredBy: hi, Seq: uint64(r.Intn(int(hi)))},
+			{TriggeredBy: 1 + uint64(r.Intn(int(m+1))), Seq: 0},
+			{TriggeredBy: hi, LowSeq: 1 + uint64(r.Intn(int(hi-1))), Seq: uint64(r.Intn(int(hi)))},
+			{LowSeq: hi + uint64(r.Intn(3)), Seq: uint64(r.Intn(int(hi + 1)))},
+		}
+		if low := s.low(); low > 0 && low < m {
+			pool = append(pool, SequenceID{LowSeq: low, Seq: low + 1 + uint64(r.Intn(int(m-low)))}, SequenceID{LowSeq: low, Seq: low + 1 + uint64(r.Intn(int(m-low)))})
+		}
+		for i := 0; i < 2; i++ {
+			sinces = append(sinces, pool[r.Intn(len(pool))])
+		}
 	}
 	opts := []struct {
 		limit int
@@ -1596,6 +2117,9 @@ func c01Scenario(t *testing.T, rec *vRecorder, r *vRand, cfg string, principalAP
 	defer s.close()
 	for i := 0; i < writes; i++ {
 		s.write(r, 1+uint64(r.Intn(4)))
+		if principalAPI && len(s.hist) > 0 && r.Chance(15) {
+			s.bumpUser(r.Intn(len(s.users))) // the user's own row moves in between the document rows
+		}
 		if i == writes/2 {
 			s.checkpoint(r, "mid", s.requests(r), nil)
 		}
@@ -1612,18 +2136,91 @@ func c01Scenario(t *testing.T, rec *vRecorder, r *vRand, cfg string, principalAP
 		}
 	}
 	s.checkpoint(r, "end-flushed", sub, memo)
+	c01SysBypass += s.db.DbStats.Cache().ChannelCacheBypassCount.Value()
 	rec.Size(fmt.Sprintf("history-len-%02d", (len(s.hist)+4)/5*5))
 }
 
 func c01System(t *testing.T, rec *vRecorder) {
 	r := vNewRand(vSeed()*7368787 + 5)
-	n := vBudget(8, 60)
+	cfgs := []string{"default", "maxlen1", "qlimit2", "bypass0", "lowseq", "maxlen1+qlimit3", "bypass1+qlimit2", "lowseq+maxlen1+qlimit2", "bypass0+lowseq+qlimit3", "qlimit2+bypass0"}
+	n := vBudget(10, 60)
 	for i := 0; i < n; i++ {
-		cfg := "default"
-		if i%2 == 1 {
-			cfg = "maxlen1"
+		c01Scenario(t, rec, r, cfgs[i%len(cfgs)], (i/2+i)%2 == 1, 8+r.Intn(9))
+	}
+	c01Witnesses(t, rec)
+	rec.Extra("system_bypass_caches_handed_out", c01SysBypass)
+}
+
+// Replays, on the real database, of the two lemmas that delimit C01_resume_paging (VisibleResume.v).
+// Neither is a defect: (1) a token no server prints ("1000::0": low sequence above the sequence) makes the channel
+// feeds and the user pseudo-feed start at different positions, so paging from it does not concatenate;
+// (2) when the low sequence changes between two pages (a skipped sequence is released) the resumed request
+// re-sends the rows between the old low sequence and the token (at-least-once, by design).
+func c01Witnesses(t *testing.T, rec *vRecorder) {
+	r := vNewRand(99)
+	{
+		s := c01NewSys(t, rec, "default", true)
+		s.cfg += "+principal-api+witness-noncanonical"
+		s.put(1, []uint64{2})
+		s.bumpUser(0)
+		s.put(2, []uint64{2})
+		s.db.WaitForPendingChanges(t)
+		since, err := ParsePlainSequenceID("1000::0")
+		if err != nil {
+			t.Fatalf("parse: %v", err)
 		}
-		c01Scenario(t, rec, r, cfg, i%4 >= 2, 8+r.Intn(9))
+		page1, ok1 := s.run(c01Req{User: 0, Chans: []string{"*"}, Since: since, Limit: 1})
+		full, ok2 := s.run(c01Req{User: 0, Chans: []string{"*"}, Since: since, Limit: 0})
+		repro := false
+		if ok1 && ok2 && len(page1) == 1 {
+			tok, _ := ParsePlainSequenceID(SequenceID{TriggeredBy: page1[0].T, LowSeq: page1[0].L, Seq: page1[0].S}.String())
+			rest, ok3 := s.run(c01Req{User: 0, Chans: []string{"*"}, Since: tok, Limit: 0})
+			repro = ok3 && !c01RowsEq(append(append([]c01Row{}, page1...), rest...), full)
+		}
+		rec.Extra("witness_noncanonical_token_paging_differs", repro)
+		// the same requests as correspondence cases: the model must predict exactly these rows
+		s.checkpoint(r, "witness", []c01Req{{User: 0, Chans: []string{"*"}, Since: since, Limit: 1}, {User: 0, Chans: []string{"*"}, Since: since, Limit: 0},
+			{User: 0, Chans: []string{"*"}, Since: SequenceID{Seq: s.hist[0].Seq}, Limit: 0}}, nil)
+		s.close()
+	}
+	{
+		s := c01NewSys(t, rec, "lowseq", false)
+		s.cfg += "+witness-low-change"
+		s.put(1, []uint64{2})
+		g := s.gap()
+		s.put(2, []uint64{2})
+		s.put(3, []uint64{2})
+		s.put(4, []uint64{2})
+		s.db.WaitForPendingChanges(t)
+		low1 := s.low()
+		page1, ok1 := s.run(c01Req{User: -1, Chans: []string{"*"}, Limit: 3})
+		s.checkpoint(r, "witness-page1", []c01Req{{User: -1, Chans: []string{"*"}, Limit: 3}}, nil)
+		repro := false
+		if ok1 && len(page1) == 3 && low1 == g-1 && low1 > 0 {
+			tok, _ := ParsePlainSequenceID(SequenceID{TriggeredBy: page1[2].T, LowSeq: page1[2].L, Seq: page1[2].S}.String())
+			if err := s.db.sequences.releaseSequence(s.ctx, g); err != nil {
+				t.Fatalf("releaseSequence: %v", err)
+			}
+			for i := 0; i < 500 && s.low() != 0; i++ {
+				time.Sleep(10 * time.Millisecond)
+			}
+			if s.low() == 0 {
+				page2, ok2 := s.run(c01Req{User: -1, Chans: []string{"*"}, Since: tok})
+				resent := 0
+				for _, a := range page1 {
+					for _, b := range page2 {
+						if a.S == b.S && a.ID == b.ID {
+							resent++
+						}
+					}
+				}
+				repro = ok2 && tok.LowSeq == low1 && resent == 2
+				s.checkpoint(r, "witness-page2", []c01Req{{User: -1, Chans: []string{"*"}, Since: tok}}, nil)
+			}
+		}
+		t.Logf("c01 witness low-change: gap %d low1 %d page1 %s repro %v", g, low1, c01RowsString(page1), repro)
+		rec.Extra("witness_low_sequence_change_resends", repro)
+		s.close()
 	}
 }
 
